@@ -60,7 +60,7 @@ GUARDS = [
     ("FitBase", "add_error", "ValueError", ["<else>"], "unknown reference specification"),
     ("NexusFitter", "set_fit_parameter_values", "ValueError", ["parameters_to_fit|_fit_par_names", "parameter_value_dict"], "unknown parameter names"),
     ("NexusFitter", "set_all_fit_parameter_values", "ValueError", ["len"], "value list of the wrong length"),
-    ("NexusFitter", "_get_pars_from_nexus", "ValueError", ["_not_found"], "names that are not nodes of the graph"),
+    ("NexusFitter", "_get_pars_from_nexus", "ValueError", ["_nx.get", "is None"], "names that are not nodes of the graph"),
     ("MinimizerIMinuit", "set", "ValueError", ["parameter_name", "not in"], "unknown parameter name"),
     ("MinimizerIMinuit", "fix", "ValueError", ["parameter_name", "not in"], "unknown parameter name"),
     ("MinimizerIMinuit", "release", "ValueError", ["parameter_name", "not in"], "unknown parameter name"),
@@ -73,7 +73,7 @@ GUARDS = [
     ("MinimizerScipyOptimize", "unlimit", "ValueError", ["<list.index first>"], "unknown parameter name"),
     ("CostFunction_NegLogLikelihood", "is_data_compatible", "<return False>", ["data", "% 1", "< 0"], "Poisson likelihood with negative or non-integer data"),
     ("HistContainer", "rebin", "ValueError", ["diff", ">= 0"], "unsorted bin edges"),
-    ("HistContainer", "set_bins", "ValueError", ["len", "_new_data", "_data"], "bin heights that do not match the binning"),
+    ("HistContainer", "set_bins", "ValueError", ["len", "bin_heights", "self._data"], "bin heights that do not match the binning"),
     ("XYContainer", "__init__", "ValueError", ["shape", "x_data", "y_data"], "x and y of different shape"),
     ("XYContainer", "_find_axis_raise", "ValueError", ["None"], "unknown axis"),
     ("Nexus", "add", "ValueError", ["name", "_nodes"], "duplicate node name (behaviour 'fail')"),
@@ -98,6 +98,7 @@ def _get_func(p, cname, fname):
 
 
 def _guard_found(eng, c, f, exc, tokens):
+    f = eng.cfunc(f, paths=False)  # canonical form: a guard moved into a private helper, a renamed or split temporary, a negated test are the same guard
     node = f.node
     if tokens == ["<except ValueError>"]:
         # try: X.index(name) except ValueError: raise ValueError
@@ -141,7 +142,8 @@ def _guard_found(eng, c, f, exc, tokens):
             continue
         conds = common.guard_conditions(node, r)
         if tokens == ["<else>"]:
-            if conds and not conds[-1][1]:
+            # reached only when none of the recognised alternatives matched: the innermost guard is an else branch, or (flat form) a `!=` / `not in` test
+            if conds and (not conds[-1][1] or (isinstance(conds[-1][0], ast.Compare) and len(conds[-1][0].ops) == 1 and isinstance(conds[-1][0].ops[0], (ast.NotEq, ast.NotIn)))):
                 return True
             continue
         txt = " ".join(("not (%s)" % ast.unparse(cd)) if not pol else ast.unparse(cd) for cd, pol in conds)
@@ -156,6 +158,11 @@ def _guard_found(eng, c, f, exc, tokens):
                     if isinstance(a, ast.Assign) and any(isinstance(t, ast.Name) and t.id == nm for t in a.targets):
                         txt += " " + ast.unparse(a.value)
                         nxt |= {x.id for x in ast.walk(a.value) if isinstance(x, ast.Name)}
+                    # a list that collects offenders: what is appended, and under which condition
+                    if isinstance(a, ast.Call) and isinstance(a.func, ast.Attribute) and a.func.attr in ("append", "add") and isinstance(a.func.value, ast.Name) and a.func.value.id == nm:
+                        for cd, pol in common.guard_conditions(node, a):
+                            txt += " " + (("not (%s)" % ast.unparse(cd)) if not pol else ast.unparse(cd))
+                            nxt |= {x.id for x in ast.walk(cd) if isinstance(x, ast.Name)}
             todo = nxt
         if all(any(alt in txt for alt in t.split("|")) for t in tokens):
             return True
